@@ -243,6 +243,53 @@ static std::string run(const std::string &line)
       CoordinateSystems::Spherical sph(nullptr);
       return vec({sph.distance_between_points_at_same_depth(Point<3>(r, lo1, la1, spherical), Point<3>(r, lo2, la2, spherical))});
     }
+  if (cmd == "bez" || cmd == "bezcp" || cmd == "bezev")
+    {
+      // bez <c|s> n x y ...            -> angles, control points
+      // bezcp <c|s> n x y ... px py    -> found distance fraction index pointx pointy normalx normaly
+      // bezev <c|s> n x y ... i t      -> point
+      std::string cs; size_t n; in >> cs >> n;
+      CoordinateSystem c = cs == "s" ? spherical : cartesian;
+      std::vector<Point<2>> pl;
+      for (size_t i = 0; i < n; ++i) { double x = rd(in), y = rd(in); pl.emplace_back(x, y, c); }
+      Objects::BezierCurve bc(pl);
+      if (cmd == "bez")
+        {
+          std::vector<double> out;
+          for (double a : bc.angles) out.push_back(a);
+          for (auto &cp : bc.control_points) { out.push_back(cp[0][0]); out.push_back(cp[0][1]); out.push_back(cp[1][0]); out.push_back(cp[1][1]); }
+          return vec(out);
+        }
+      if (cmd == "bezev")
+        {
+          size_t i; in >> i; double t = rd(in);
+          Point<2> p = bc(i, t);
+          return vec({p[0], p[1]});
+        }
+      double px = rd(in), py = rd(in);
+      Objects::ClosestPointOnCurve r = bc.closest_point_on_curve_segment(Point<2>(px, py, c));
+      return vec({r.distance, r.parametric_fraction, static_cast<double>(r.index), r.point[0], r.point[1], r.normal[0], r.normal[1]});
+    }
+  if (cmd == "kd" || cmd == "kdq")
+    {
+      // kd n x y ... px py  -> node order (index x y)* then min_index min_distance visited(index dist)*
+      size_t n; in >> n;
+      std::vector<KDTree::Node> nodes;
+      for (size_t i = 0; i < n; ++i) { double x = rd(in), y = rd(in); nodes.emplace_back(i, x, y); }
+      KDTree::KDTree tree(nodes);
+      tree.create_tree(0, nodes.size()-1, false);
+      double px = rd(in), py = rd(in);
+      KDTree::IndexDistances r = tree.find_closest_points(Point<2>(px, py, cartesian));
+      std::string s = "ok";
+      if (cmd == "kd")
+        {
+          for (auto &nd : tree.get_nodes()) { s += " " + std::to_string(nd.index) + " " + hx(nd.x) + " " + hx(nd.y); }
+          s += " |";
+        }
+      s += " " + std::to_string(r.min_index) + " " + hx(r.min_distance);
+      for (auto &v : r.vector) s += " " + std::to_string(v.index) + " " + hx(v.distance);
+      return s;
+    }
   return "unknown-command";
 }
 
